@@ -1522,12 +1522,12 @@ def run(ctx):
         n, budget = 44, 14
     else:
         ks = [0, 1, 2, 4, 6, 9, 10, 11, 12, 13, 15, 19, 20, 21, 22, 25, 25]
-        n, budget = 250, 30
+        n, budget = 215, 30
     generated = [gen_case(rng, budget, ks) for _ in range(n)]
     cases += [("generated", c) for c in generated]
     small = [c for c in generated if 1 <= sum(counts(c["ops"], len(c["loops"]))) <= 6]
     # (a) set-iteration order: a sample of the cases again in child processes with other hash seeds
-    nchild, seeds = (6, 2) if quick else (16, 3)
+    nchild, seeds = (6, 2) if quick else (12, 3)
     interesting = sorted(small, key=lambda c: -(2 * any(r["method"] in AGG for lp in c["loops"] for q in lp["loop"] for r in q["refs"])
                                                 + shares_names(c)))
     for i in range(seeds):
